@@ -345,7 +345,7 @@ def run():
     thorough = chk.tier == 'thorough'
     g = Gen(chk.rng)
     corpus = load_corpus()
-    cases = list(corpus) + [g.case() for _ in range(150000 if thorough else 15000)]
+    cases = list(corpus) + [g.case() for _ in range(100000 if thorough else 15000)]
     if thorough:
         # the pending count saturates at INT_MAX (only here: code carrying markers in band would allocate 2^31 of them)
         base = dict(cases[0]) if cases else g.case()
@@ -411,9 +411,9 @@ def run():
         'generator_histogram': dict(sorted(g.hist.items()))})
     if thorough:
         san = vlib.build_harness('pattern', 'san')
-        sub = cases[:30000]
-        rs = evaluate(sub, san, model)
-        bad = [i for i, r in enumerate(rs) if r['crashed'] or r['impl'] != res[i].get('impl')]
+        sub = cases[:20000]
+        rs = evaluate(sub, san, model)     # compared with the model under ITS OWN environment (time, thread id differ between runs)
+        bad = [i for i, r in enumerate(rs) if r['crashed'] or (not r['envmiss'] and (r['impl'] != r['model'] or not r['oracle']))]
         chk.cov['sanitizer_build_cases'] = len(sub)
         chk.cov['sanitizer_build_differences'] = len(bad)
         if bad:
